@@ -136,7 +136,7 @@ pub fn configs(prop: &str, thorough: bool) -> Vec<(Cfg, Option<usize>)> {
                 c.initial = vec![(0, 2), (1, 1)];
                 c.senders = vec![0, 1, 2];
                 c.recipients = vec![0, 2];
-                c.owners = vec![0, 1, 2];
+                c.owners = vec![0, 1];
                 c.spenders = vec![0, 1, 2];
                 c.amounts = vec![0, 1, 2];
                 c.exps = vec![ExpA::Unset, ExpA::H(H0 + 1)];
